@@ -27,6 +27,12 @@ const A_BIG: &[&str] = &[" ", "a", "bc", "-", "\n", "é", "你", "中", "d-e", "
 const A_ADVERSARIAL: &[&str] = &[" ", "a", "-", "\n", "\r", "\t", "é", "你", "中", "\u{ad}", "\u{a0}", "\u{3000}", "\u{200b}", "\u{301}", "😂", "\x1b", "[", "]", "m", "~", "\x07", "\\"];
 const A_ANSI: &[&str] = &["a", " ", "你", "\u{301}", "\x1b[31m", "\x1b[0m", "\x1b[1~", "\x1b[@", "\x1b[?", "\x1b]8;;x\x1b\\", "\x1b]0;t\x07", "\x1b[", "\x1b", "m", "\\", "[", "\x7f", "?"];
 const A_WORDS: &[&str] = &[" ", "a", "b", "-", "\t", "\u{a0}", "\u{200b}", "\u{2060}", "你", "中", "😂", "😭", "\u{ad}", "\n", "\x1b[31m", "\x1b[0m", ")", "é", "\u{3000}", "\x1b]8;;x\x1b\\", "\x1b]0;t\x07"];
+/// everything at once, for the sampled long-string passes: all whitespace kinds (incl. EM/EN SPACE, which share their UTF-8 lead
+/// bytes with each other and with the EM DASH), controls (VT, FF, NEL, DEL, a C1 control), zero-width and combining characters,
+/// wide characters, hyphens, prefix characters, well-formed and broken escape sequences
+const A_ALL: &[&str] = &[" ", "a", "b", "-", "\n", "\r\n", "\r", "\t", "\u{b}", "\u{c}", "\u{85}", "\u{7f}", "\u{90}", "\u{a0}", "\u{2002}", "\u{2003}", "\u{2014}", "\u{3000}",
+    "\u{200b}", "\u{2060}", "\u{ad}", "\u{301}", "\u{3099}", "é", "你", "中", "か", "😂", "1", ")", ">", "*", "#", "/", "_",
+    "\x1b[31m", "\x1b[0m", "\x1b[1~", "\x1b[@", "\x1b]8;;x\x1b\\", "\x1b]0;t\x07", "\x1b", "[", "]", "m", "\x07", "\\"];
 const A_WORD: &[&str] = &["a", "b", "-", "1", "你", "\u{301}", "é", "\x1b[31m", "\x1b[0m", "\x1b[1~", "😂", "\u{200b}", "\t"];
 /// incl. a bare ESC (which swallows the following character, possibly a space, when measured on the whole line) and a CSI sequence
 const A_INPLACE: &[&str] = &[" ", "a", "bc", "\n", "é", "你", "\r", "\t", "\x1b", "\x1b[31m"];
@@ -109,6 +115,32 @@ impl Ctx {
         both.extend(grid.iter().cloned().map(|mut o| { o.crlf = true; o }));
         self.text_grid(&format!("{}.big_alphabet", name), &format!("{} (broad alphabet, LF and CRLF line ending)", clause), A_BIG, big_len, both.clone(), widths, &check);
         self.text_random(&format!("{}.random", name), &format!("{} (long random texts, sampled, LF and CRLF line ending)", clause), A_BIG, 40, nrandom, both, &check);
+    }
+
+    /// seeded random long strings over the all-in-one alphabet (sampling; complements the exhaustive short strings)
+    fn strings_random<F>(&mut self, name: &str, clause: &str, no_newlines: bool, maxlen: u64, n: u64, ns_n: Vec<usize>, auxes: Vec<&'static str>, check: F)
+    where
+        F: Fn(&StrCase) -> Outcome + Sync,
+    {
+        let seed = self.seed;
+        let scope = format!("[{}] {} seeded random strings (seed {}) of <= {} symbols over {:?}{}, n in {:?}, aux in {:?}", FLAVOR, n, seed, maxlen, A_ALL, if no_newlines { " minus line breaks" } else { "" }, ns_n, auxes);
+        let r = run_indexed(name, clause, &scope, n, false,
+            |i| {
+                let mut rng = Rng::for_index(seed, i);
+                let l = rng.below(maxlen) + 1;
+                let mut t = String::new();
+                for _ in 0..l {
+                    let k = if rng.below(3) == 0 { rng.below(A_ALL.len() as u64) } else { rng.below(4) };
+                    let sym = A_ALL[k as usize];
+                    if no_newlines && sym.contains('\n') {
+                        continue;
+                    }
+                    t.push_str(sym);
+                }
+                Some(StrCase { text: t, n: ns_n[rng.below(ns_n.len() as u64) as usize], aux: auxes[rng.below(auxes.len() as u64) as usize].to_string() })
+            },
+            check);
+        self.reports.push(r);
     }
 
     fn strings<F>(&mut self, name: &str, clause: &str, alphabet: &'static [&'static str], len: u32, ns_n: Vec<usize>, auxes: Vec<&'static str>, check: F)
@@ -466,13 +498,17 @@ fn run_property(prop: &str, ctx: &mut Ctx) {
             ctx.reports.push(r);
             ctx.strings("C10.display_width.strings", "== sum of widths outside CSI/OSC sequences (well-formed texts); additive; invariant under inserting sequences; <= byte length (all texts)",
                 A_ANSI, l(4, 6), vec![0], vec![""], props_words::c10_strings);
+            ctx.strings_random("C10.display_width.strings.random", "same (long random strings, sampled)", false, 30, if th { 1_000_000 } else { 40_000 }, vec![0], vec![""], props_words::c10_strings);
         }
         "C11" => {
             ctx.strings("C11.find_words.ascii", "lossless; whitespace is spaces; no trailing space in words; width cached; boundaries = space followed by non-space",
                 A_WORDS, l(4, 6), vec![0], vec![""], props_words::c11_ascii);
+            ctx.strings_random("C11.find_words.ascii.random", "same (long random lines, sampled)", true, 30, if th { 1_000_000 } else { 40_000 }, vec![0], vec![""], props_words::c11_ascii);
             #[cfg(feature = "full")]
             ctx.strings("C11.find_words.unicode", "lossless ...; boundaries = UAX#14 opportunities of the stripped line minus those after '-'/SHY, none inside a sequence",
                 A_WORDS, l(4, 5), vec![0], vec![""], props_words::c11_unicode);
+            #[cfg(feature = "full")]
+            ctx.strings_random("C11.find_words.unicode.random", "same (long random lines, sampled)", true, 30, if th { 1_000_000 } else { 40_000 }, vec![0], vec![""], props_words::c11_unicode);
             #[cfg(feature = "full")]
             ctx.strings("A13.linebreaks.shape", "unicode_linebreak::linebreaks(s): strictly increasing char boundaries in 1..=len (the shape unit U20 assumes)",
                 A_WORDS, l(4, 5), vec![0], vec![""], props_words::a13_linebreaks_shape);
@@ -482,6 +518,8 @@ fn run_property(prop: &str, ctx: &mut Ctx) {
                 &["a", "b", "-", "1", "你", "é", " ", "_"], l(5, 7), vec![0, 1], vec!["None", "Hyphen", "Every2"], props_words::c12_split);
             ctx.strings("C12.break_apart", "pieces concatenate, non-empty, <= limit unless a single wide char, maximal, never inside a sequence, widths cached; pass-through",
                 A_WORD, l(4, 6), vec![0, 1, 2, 3, 5], vec!["", "pen"], props_words::c12_break);
+            ctx.strings_random("C12.break_apart.random", "same (long random words, sampled)", true, 20, if th { 1_000_000 } else { 40_000 }, vec![0, 1, 2, 3, 5, 8], vec!["", "pen"], props_words::c12_break);
+            ctx.strings_random("C12.split_words.random", "same (long random words, sampled)", true, 20, if th { 1_000_000 } else { 40_000 }, vec![0, 1], vec!["None", "Hyphen", "Every2"], props_words::c12_split);
         }
         "C13" => {
             colour_cases(ctx, l(3, 4));
@@ -492,6 +530,7 @@ fn run_property(prop: &str, ctx: &mut Ctx) {
         }
         "C15" => {
             ctx.strings("C15.unfill.structural", "indents are prefixes made of prefix characters; no interior line break; line-ending detection", A_UNFILL, l(5, 7), vec![0], vec![""], c15_structural);
+            ctx.strings_random("C15.unfill.structural.random", "same (long random texts, sampled)", false, 30, if th { 1_000_000 } else { 40_000 }, vec![0], vec![""], c15_structural);
             refill_cases(ctx, "C15.unfill.roundtrip", "unfill(fill(paragraph)) recovers text, indents, width and line ending", l(3, 5), c15_roundtrip);
         }
         "C16" => {
@@ -499,12 +538,15 @@ fn run_property(prop: &str, ctx: &mut Ctx) {
         }
         "C17" => {
             ctx.strings("C17.fill_inplace", "same length; only ' ' -> '\\n'; lines == wrap with the documented options", A_INPLACE, l(5, 6), vec![0, 1, 2, 3, 4, 6, 9], vec![""], props_wrap::c17_inplace);
+            ctx.strings_random("C17.fill_inplace.random", "same (long random texts, sampled)", false, 30, if th { 1_000_000 } else { 40_000 }, vec![0, 1, 2, 3, 4, 6, 9, 14], vec![""], props_wrap::c17_inplace);
         }
         "C18" => {
             ctx.strings("C18.dedent", "removes exactly the longest common whitespace margin; idempotent; dedent(indent(s,p)) == dedent(s)", A_DEDENT, l(7, 9), vec![0], vec![""], c18_dedent);
+            ctx.strings_random("C18.dedent.random", "same (long random texts, sampled)", false, 30, if th { 1_000_000 } else { 40_000 }, vec![0], vec![""], c18_dedent);
         }
         "C19" => {
             ctx.strings("C19.indent", "every line prefixed (trimmed prefix on blank lines); newline structure kept; indent(s,\"\") == s", A_INDENT, l(6, 8), vec![0], vec!["", "  ", "> ", "\t", "// "], c19_indent);
+            ctx.strings_random("C19.indent.random", "same (long random texts, sampled)", false, 30, if th { 1_000_000 } else { 40_000 }, vec![0], vec!["", "  ", "> ", "\t", "// ", "\u{3000}x "], c19_indent);
         }
         "C20" => {
             col_cases(ctx, l(4, 6));
